@@ -97,6 +97,8 @@ class FakeSock:
         if addr[1] == 0:
             # what the operating system does for a datagram that came with source port 0
             raise OSError(22, 'Invalid argument')
+        if isinstance(msg, str):
+            raise TypeError('a bytes-like object is required, not str')      # as the real socket
         (self.per_dg[-1] if self.per_dg else self.announce).append((bytes(msg), addr))
         return len(msg)
 
@@ -160,8 +162,10 @@ def impl_run(case):
         obs['fw'] = u.firmware
         obs['ports'] = list(u.ports)
         try:
-            obs['messages'] = [list(u._getMessage(p)) for p in u.ports]
-            obs['budget_message'] = list(u._getMessage(2 ** 16 - 1))
+            def as_bytes(m):       # what goes out is bytes; a text is what its UTF-8 encoding would put on the wire
+                return m.encode('utf-8') if isinstance(m, str) else bytes(m)
+            obs['messages'] = [list(as_bytes(u._getMessage(p))) for p in u.ports]
+            obs['budget_message'] = list(as_bytes(u._getMessage(2 ** 16 - 1)))
         except Exception as e:
             return {'construct_error': 'getMessage:' + type(e).__name__}
         addrs = {}
@@ -418,6 +422,11 @@ def hostile_catalogue():
         ('1024-garbage', b'x' * 1024), ('1024-digits', b'9' * 1024), ('2000-bytes-request-cut', big_obj),
         ('1025-cut-brace', pad(b'{"SECoP":"discover","pad":"', 1023, b'p') + b'"}'),
         ('huge', b'\xff' * 4000),
+        # deeply nested AND oversized: harmless only as long as the responder looks at a bounded part of a datagram
+        # (nesting beyond the interpreter's recursion limit makes json.loads raise RecursionError, not a ValueError)
+        ('2000-nested-open', b'[' * 2000), ('5000-nested-array', b'[' * 5000 + b']' * 5000),
+        ('30000-nested-open', b'[' * 30000), ('3000-nested-object', b'{"a":' * 3000 + b'1' + b'}' * 3000),
+        ('60000-nested-request-inside', b'[' * 30000 + VALID + b']' * 29000),
     ]
 
 
